@@ -180,6 +180,12 @@ def gen_case(rng, malformed=False):
     pix = [(l, dy(rng, -32, 32, 16)) for l in labs]
     mode = rng.choice(["comb", "comb", "comb", "single"])
     models = gen_models(rng, 1 if mode == "single" else rng.randint(1, 4), L)
+    if not any(m[0] == "het" for m in models) and rng.random() < 0.6:
+        # label-free models take signals of any dimensionality: 1-D pixel lists and 3-D arrays
+        shape = rng.choice([(rng.randint(1, 7),), (rng.randint(1, 3), rng.randint(1, 3), rng.randint(1, 3))])
+        npx = int(np.prod(shape))
+        pix = [(0, dy(rng, -32, 32, 16)) for _ in range(npx)]
+        label_values = [0]
     choice = rng.random()
     upd = None
     if choice < 0.25:
@@ -234,6 +240,7 @@ def gen_thr(rng, d):
     vals = [dy(rng, -8, 24, 16) for _ in range(npx)]
     mask = None if rng.random() < 0.4 else [rng.random() < 0.6 for _ in range(npx)]
     het = rng.random() < 0.6
+    as_float = mask is None and rng.random() < 0.3  # return_float only changes the dtype of the unmasked result
     lab = np.array([label_values[l] for l in labs]).reshape(shape)
     sig = np.array([float(v) for v in vals]).reshape(shape)
     if het:
@@ -244,12 +251,12 @@ def gen_thr(rng, d):
                 lo[i] = rng.choice(vals)
         hi = None if rng.random() < 0.3 else [rng.choice([l + dy(rng, 0, 16, 16), rng.choice(vals)]) for l in lo]
         line = f"thr het {L} {fmts(lo)} " + ("none" if hi is None else "some " + fmts(hi))
-        model = call(d.StaticThresholdModel, [float(x) for x in lo], None if hi is None else [float(x) for x in hi], lab)
+        model = call(d.StaticThresholdModel, [float(x) for x in lo], None if hi is None else [float(x) for x in hi], lab, as_float)
     else:
         lo = rng.choice([dy(rng, 0, 8, 16), rng.choice(vals)])
         hi = rng.choice([None, lo + dy(rng, 0, 16, 16), rng.choice(vals)])
         line = f"thr hom {fmt(lo)} {'none' if hi is None else fmt(hi)}"
-        model = call(d.StaticThresholdModel, float(lo), None if hi is None else float(hi))
+        model = call(d.StaticThresholdModel, float(lo), None if hi is None else float(hi), None, as_float)
     line += " | " + ("nomask" if mask is None else "mask " + " ".join("1" if b else "0" for b in mask))
     line += f" | {npx} " + " ".join(f"{l} {fmt(v)}" for l, v in zip(labs, vals))
     if isinstance(model, Raised):
@@ -259,7 +266,10 @@ def gen_thr(rng, d):
         impl = repr(out)
     else:
         out = np.asarray(out)
-        impl = "!shape" if out.shape != shape else " ".join("1" if b else "0" for b in out.ravel())
+        if as_float and out.dtype.kind != "f" or not as_float and out.dtype != bool or not np.all((out == 0) | (out == 1)):
+            impl = "!dtype"
+        else:
+            impl = "!shape" if out.shape != shape else " ".join("1" if b else "0" for b in out.ravel())
     # the statement itself, evaluated directly
     want = []
     for i, (l, v) in enumerate(zip(labs, vals)):
@@ -471,6 +481,24 @@ def oracle_models(ctx, d):
         if not np.array_equal(np.asarray(seq), want):
             ctx.fail("C14:models:defining-formula", "model output differs from its defining formula (label-wise = homogeneous per label)", {"line": c.line()})
 
+    # (e') the generic label-wise wrapper HeterogeneousModel(model, label image): per-label copies, region by region
+    for _ in range(ctx.pick(10, 100)):
+        L = rng.randint(1, 5)
+        sc, of = [dy(rng) for _ in range(L)], [dy(rng) for _ in range(L)]
+        c = mk_case([("het", L, sc, of)], None, L)
+        lab, sig = c.arrays()
+        ctx.count(("HeterogeneousModel", L, tuple(sc), tuple(of)))
+        hm = call(d.HeterogeneousModel, d.LinearModel(), d.Image(lab, dimensions=[1.0, 1.0], scalar=True))
+        if isinstance(hm, Raised):
+            ctx.fail("C14:HeterogeneousModel.__init__:raises", f"{hm!r}", {"labels": lab.tolist()})
+            continue
+        r = call(lambda: [hm[l].update(scaling=float(sc[i]), offset=float(of[i])) for i, l in enumerate(np.unique(lab))])
+        out = r if isinstance(r, Raised) else call(hm, sig.copy())
+        want = np.array([float(v) for v in ref_apply(c.models, c.pix)]).reshape(c.shape)
+        if isinstance(out, Raised) or np.asarray(out).shape != want.shape or not np.array_equal(out, want):
+            ctx.fail("C14:HeterogeneousModel.__call__:per-label", "label-wise wrapper differs from the homogeneous model of each label on its region",
+                     {"line": c.line(), "observed": repr(out)[:200]})
+
     # (d) routing: "all" and every subset of updatable parameters
     combos = [[("clip", F(0), F(1)), ("linear", F(1), F(0))], [("scaling", F(2)), ("clip", F(-1), None), ("linear", F(2), F(1))],
               [("het", 2, [F(1), F(1)], [F(0), F(0)]), ("clip", F(0), F(2))], [("linear", F(1), F(0)), ("het", 3, [F(1)] * 3, [F(0)] * 3), ("scaling", F(3))]]
@@ -598,21 +626,74 @@ def oracle_kernel(ctx, d):
 # ---------------------------------------------------------------------------
 
 
+def _parse_models(toks):
+    """inverse of tok_model over a token list; returns (models, rest)"""
+    ms = []
+    while toks and toks[0] in ("clip", "scal", "lin", "het"):
+        k = toks.pop(0)
+        if k == "clip":
+            lo, hi = toks.pop(0), toks.pop(0)
+            ms.append(("clip", Fraction(lo), None if hi == "none" else Fraction(hi)))
+        elif k == "scal":
+            ms.append(("scaling", Fraction(toks.pop(0))))
+        elif k == "lin":
+            ms.append(("linear", Fraction(toks.pop(0)), Fraction(toks.pop(0))))
+        else:
+            L = int(toks.pop(0))
+            ms.append(("het", L, [Fraction(toks.pop(0)) for _ in range(L)], [Fraction(toks.pop(0)) for _ in range(L)]))
+    return ms, toks
+
+
 def replay(data):
+    """re-run one stored case on the implementation; print observed vs required; 1 if it still fails"""
     import darsia as d
 
     rp = data.get("replay", data)
-    if "line" in rp and rp["line"].startswith("run "):
-        print(json.dumps({"note": "re-run through ./check C14 (correspondence line)", "line": rp["line"]}, indent=1))
-        return 0
     if "degree" in rp:
         poly, sizes = tabulate_poly(d)
         deg = rp["degree"]
         want = {(i, j) for i in range(deg + 1) for j in range(deg + 1 - i)}
         got = poly[deg]
         bad = isinstance(got, Raised) or set(got) != want or len(got) != len(want)
-        print(json.dumps({"degree": deg, "exponents": None if isinstance(got, Raised) else got, "still_failing": bad}, default=str))
+        print(json.dumps({"degree": deg, "exponents": None if isinstance(got, Raised) else got, "required": sorted(want), "still_failing": bad}, default=str))
         return 1 if bad else 0
+    if "models" in rp and "parameters" in rp:
+        models = [_parse_models(m.split())[0][0] for m in rp["models"]]
+        ps = [Fraction(x) for x in rp["parameters"]]
+        L = max([m[1] for m in models if m[0] == "het"] + [1])
+        vals = [Fraction(k, 4) for k in range(-12, 13)]
+        c = Case("comb", models, None, [(i % L, v) for i, v in enumerate(vals)], [5 * (i + 1) for i in range(L)], (5, 5))
+        lab, sig = c.arrays()
+        comb = d.CombinedModel([build(d, m, lab) for m in models])
+        arr = np.array([float(x) for x in ps])
+        if rp["dofs"] == "all":
+            entries = [(pos, "all") for pos in range(len(models))]
+            r = call(comb.update_model_parameters, arr)
+        else:
+            entries = [(p_, s_ if isinstance(s_, str) else list(s_)) for p_, s_ in rp["dofs"]]
+            r = call(comb.update_model_parameters, arr, entries)
+        got = r if isinstance(r, Raised) else call(comb, sig.copy())
+        want = np.array([float(v) for v in ref_apply(ref_route(models, entries, ps), c.pix)]).reshape(c.shape)
+        bad = isinstance(got, Raised) or not np.array_equal(got, want)
+        print(json.dumps({"case": rp, "observed": repr(got) if isinstance(got, Raised) else np.asarray(got).ravel().tolist(),
+                          "required": want.ravel().tolist(), "still_failing": bad}, indent=1, default=str))
+        return 1 if bad else 0
+    if "line" in rp and rp["line"].startswith("run "):
+        toks = rp["line"].split()
+        mode, n = toks[1], int(toks[2])
+        models, rest = _parse_models(toks[3:])
+        bar2 = len(rest) - 1 - rest[::-1].index("|")
+        pt = rest[bar2 + 2:]
+        pix = [(int(pt[i]), Fraction(pt[i + 1])) for i in range(0, len(pt), 2)]
+        L = max([m[1] for m in models if m[0] == "het"] + [max(l for l, _ in pix) + 1])
+        side = int(round(len(pix) ** 0.5))
+        shape = (side, side) if side * side == len(pix) else (1, len(pix))
+        c = Case(mode, models, None, pix, [5 * (i + 1) for i in range(L)], shape)
+        got = c.run_impl(d)
+        want = fmts(ref_apply(models, pix))
+        print(json.dumps({"line": rp["line"], "note": "models applied without the update part", "observed": got, "required": want,
+                          "still_failing": got != want}, indent=1))
+        return 1 if got != want else 0
     print(json.dumps(rp, indent=1, default=str))
     return 0
 
